@@ -449,3 +449,98 @@ Definition C04_pin_bcdd_run_quant := ex_c_quant.
 Definition C04_pin_bcdd_run_restrict := ex_c_restrict.
 Definition C04_pin_bcdd_run_apply_quant := ex_c_apply_quant.
 Definition C04_pin_bcdd_run_substitute := ex_c_substitute.
+
+(** ** The ZBDD kind: [restrict] (package C02z; model DD/ZbddBool.v [zrestrict] / [zrestrict_base],
+       proofs DD/ZbddRestrictProofs.v, DD/ZbddRestrictTop.v)
+
+    Reading.  [zbfun_of s r] is the Boolean function of a ZBDD reference over all variables of the
+    manager; [zcube_lits] reads the literal list (level, polarity) off the cube handle the way the
+    code walks it (a skipped level is a negative literal, a node with equal children no literal, a
+    node with lo = Empty a positive one; [None] = not a cube); [lits_vars] renames levels to
+    variables; [ZCube s M lvl vars] is the same reading as a relation; [prestr n M lvl P] the
+    family of the restriction. *)
+From OxiVerif Require Import DD.TableExtra DD.FamSpec DD.FamSpecProofs DD.ZbddOps DD.ZbddOpsProofs
+  DD.ZbddVars DD.ZbddVarsProofs DD.ZbddExamples DD.ZbddBool DD.ZbddBoolProofs DD.ZbddEvalProofs
+  DD.ZbddRestrictProofs DD.ZbddRestrictTop DD.ZbddBoolExamples.
+
+(** [restrict] = the cofactor w.r.t. the partial assignment given by the cube, and the cube handle
+    indeed denotes the conjunction of those literals *)
+Theorem C04_zbdd_restrict : forall C cget cadd, zlossy C cget cadd ->
+  forall s (c : C) f vars lits,
+  ZbddOK s -> zchain_ok_b s = true -> ZCacheOKB C cget s c -> ref_ok s f ->
+  zcube_lits (S (nlevels s)) s vars 0 = Some lits ->
+  exists s' c' r, zrestrict_edge C cget cadd (S (nlevels s)) s c f vars = Some (s', c', r) /\
+    (ZbddOK s' /\ zchain_ok_b s' = true /\ extends s s' /\ ZCacheOKB C cget s' c' /\ ref_ok s' r) /\
+    (forall a, zbfun_of s' r a = restrict_s (lits_vars s lits) (zbfun_of s f) a) /\
+    (forall a, zbfun_of s vars a =
+       forallb (fun p : nat * bool => Bool.eqb (a (fst p)) (snd p)) (lits_vars s lits)).
+Proof. exact zrestrict_edge_bfun. Qed.
+Print Assumptions C04_zbdd_restrict.
+
+(** per choice (level-indexed): the view of the result at [c0] is the view of the operand at [c0]
+    with the literal levels overridden; for any fuel and any reference of cube shape *)
+Theorem C04_zbdd_restrict_view : forall C cget cadd, zlossy C cget cadd ->
+  forall fuel s (c : C) f vars M,
+  ZbddOK s -> zchain_ok_b s = true -> ZCacheOKB C cget s c -> ref_ok s f -> ZCube s M 0 vars ->
+  S (nlevels s) <= fuel ->
+  exists s' c' r, zrestrict_edge C cget cadd fuel s c f vars = Some (s', c', r) /\
+    (ZbddOK s' /\ zchain_ok_b s' = true /\ extends s s' /\ ZCacheOKB C cget s' c' /\ ref_ok s' r) /\
+    forall c0, choice_ok s c0 ->
+      zview_of s' r c0 =
+      zview_of s f (fun l => match M l with Some true => 0 | Some false => 1 | None => c0 l end).
+Proof. exact zrestrict_edge_cube. Qed.
+Print Assumptions C04_zbdd_restrict_view.
+
+(** the level-threaded recursion, for every level, sufficient fuel, lossy cache *)
+Theorem C04_zbdd_restrict_ok : forall C cget cadd, zlossy C cget cadd ->
+  forall fuel s (c : C) f vars lvl P M,
+  ZbddOK s -> zchain_ok_b s = true -> ZCacheOKB C cget s c -> ZDen s f P -> ZCube s M lvl vars ->
+  lvl <= rlevel s f -> nlevels s - lvl < fuel ->
+  exists s' c' r, zrestrict C cget cadd fuel s c f vars lvl = Some (s', c', r) /\
+    ZbddOK s' /\ extends s s' /\ ZCacheOKB C cget s' c' /\
+    ZDen s' r (prestr (nlevels s) M lvl P).
+Proof. exact zrestrict_ok. Qed.
+Print Assumptions C04_zbdd_restrict_ok.
+
+(** [restrict_base]: the restriction of Base, don't-care nodes re-inserted for the skipped levels *)
+Theorem C04_zbdd_restrict_base_ok : forall fuel s vars lvl M,
+  ZbddOK s -> zchain_ok_b s = true -> ZCube s M lvl vars -> lvl <= nlevels s -> nlevels s - lvl < fuel ->
+  exists s' r, zrestrict_base fuel s vars lvl = Some (s', r) /\
+    ZbddOK s' /\ extends s s' /\ ZDen s' r (prestr (nlevels s) M lvl (fun S => S = [])).
+Proof. exact zrestrict_base_ok. Qed.
+Print Assumptions C04_zbdd_restrict_base_ok.
+
+(** the family of the restriction means: override the literal levels, then ask the operand *)
+Theorem C04_zbdd_prestr_spec : forall n M lvl (P : lset -> Prop) S,
+  prestr n M lvl P S <->
+  incr_from lvl S /\ Forall (fun x => x < n) S /\
+  P (true_levels (fun l => match M l with
+                           | Some true => 0 | Some false => 1
+                           | None => if smem l S then 0 else 1 end) lvl (n - lvl)).
+Proof. intros n M lvl P S. reflexivity. Qed.
+Print Assumptions C04_zbdd_prestr_spec.
+
+(** the structural reading of the cube is the semantic one: a reference of cube shape denotes
+    exactly the sets that contain every positive and no negative literal level *)
+Theorem C04_zbdd_cube_den : forall s M lvl vars, ZbddOK s -> ZCube s M lvl vars -> lvl <= nlevels s ->
+  ZDen s vars (fun S => incr_from lvl S /\ Forall (fun x => x < nlevels s) S /\
+    forall l, lvl <= l < nlevels s -> (M l = Some true -> In l S) /\ (M l = Some false -> ~ In l S)).
+Proof. exact zcube_den. Qed.
+Print Assumptions C04_zbdd_cube_den.
+
+(** the executable reader (run on real snapshots) returns the literals of a [ZCube], sorted by level *)
+Theorem C04_zbdd_cube_lits : forall s, ZbddOK s -> forall fuel vars lvl lits,
+  zcube_lits fuel s vars lvl = Some lits -> lvl <= nlevels s ->
+  incr_from lvl (map fst lits) /\ Forall (fun x => x < nlevels s) (map fst lits) /\
+  ZCube s (fun l => assoc_nat lits l) lvl vars.
+Proof. exact zcube_lits_cube. Qed.
+Print Assumptions C04_zbdd_cube_lits.
+
+(** the shape determines the literals (used for the cache entries keyed by (f, vars)) *)
+Theorem C04_zbdd_cube_agree : forall s M M' lvl vars, WF s -> ZCube s M lvl vars -> ZCube s M' lvl vars ->
+  forall l, lvl <= l < nlevels s -> M l = M' l.
+Proof. exact zcube_agree. Qed.
+Print Assumptions C04_zbdd_cube_agree.
+
+Definition C04_pin_zbdd_hyps := conj ex_z4_ok ex_z4_chain.
+Definition C04_pin_zbdd_run_restrict := ex_z4_restrict.
